@@ -67,6 +67,7 @@ class Addr:
         if gmtexpires.upper() == 'NEVER':
             # FIXME can I just select a date 100 years in the future instead?
             self.expires = None
+            self._cancel_expiry()
         else:
             self.expires = datetime.datetime.strptime(gmtexpires, fmt)
         self.created = datetime.datetime.utcnow()
@@ -84,10 +85,19 @@ class Addr:
                 diff = self.expires - oldexpires
                 self.expiry.delay(diff.total_seconds())
 
+    def _cancel_expiry(self):
+        """
+        forget a still-pending expiry of the mapping this one replaces
+        """
+        if self.expiry is not None and self.expiry.active():
+            self.expiry.cancel()
+        self.expiry = None
+
     def _expire(self):
         """
         callback done via callLater
         """
+        self._cancel_expiry()
         # the mapping is stored under the name and under the address
         for key in [k for k, v in self.map.addr.items() if v is self]:
             del self.map.addr[key]
